@@ -38,6 +38,10 @@ def run(ctx):
     for name, lib in libs_:
         kind = 'gas' if name in ('BensonGA', 'PPY') else 'surface'
         pool = list(G.MIX_GAS if kind == 'gas' else G.MIX_SURFACE)
+        if kind == 'gas':
+            # fused / linked C6 rings: RDKit's Kekule form gives their second ring the other alternation phase (DOUBLE first),
+            # which a lone benzene ring never has
+            pool += ['c1ccc2ccccc2c1', 'c1ccc(cc1)c1ccccc1', 'Cc1ccc2ccccc2c1']
         if ctx.thorough():
             pool += list((G.FIXED_GAS if kind == 'gas' else G.FIXED_SURFACE)[:40])
         for _ in range(ctx.n(8, 60)):
